@@ -1333,6 +1333,20 @@ def _batch_invariance(ctx, pname, build, ename, multistart, call=None, env_facto
                         "max relative logit gap over the steps": getattr(ctx, "_last_dev", None)}, cap=3)
         if res == "diff" and not ctx.searching:
             break
+    # the SECOND instance under test (row 1: from the last parameter variant — the largest fleet / budget / capacity …)
+    if results["diff"] == 0 and len(set(groups)) > 1:
+        try:
+            solo1 = _decode(pol, env, pool[1:2], call, seed)
+            for label, idx, p in (("second instance B=2 pos=0", [1, 0], 0), ("second instance B=2 pos=1", [0, 1], 1),
+                                  ("second instance B=3 pos=1", [0, 1, 2], 1), ("second instance B=8 pos=7", [0, 2, 3, 4, 5, 6, 7, 1], 7)):
+                bat = _decode(pol, env, pool[idx], call, seed)
+                ctx.case((tag, label, seed))
+                ctx.count("composition second instance")
+                res = _compare_row(ctx, tag, solo1, bat, p, len(idx), f"{pname} on {ename}, {label}",
+                                   {"composition": label, "rows": idx, **wit0}, kp=kp)
+                results[res] += 1
+        except Exception as e:
+            ctx.note(f"second-instance sweep unavailable {tag}: {type(e).__name__}")
     if multistart and results["diff"] == 0:
         try:
             S = int(env.get_num_starts(pool[0:1]))
@@ -1384,6 +1398,95 @@ def _ffsp_env(name):
 
 def _ffsp_call(pol, env, td, **kw):
     return pol(td, env, phase="test")
+
+
+def _tensors(x):
+    if isinstance(x, torch.Tensor):
+        return [x] if x.dim() >= 1 else []
+    if isinstance(x, (tuple, list)):
+        return [t for y in x for t in _tensors(y)]
+    return []
+
+
+def _check_embeddings_rowlocal(ctx):
+    """module-level row-locality of EVERY init / context / dynamic embedding class, independent of any policy: on a batch whose rows
+    carry different per-instance parameters, `emb(td)[i]` must equal `emb(td[i:i+1])[0]` — at reset and after two decoding steps.
+    Also lists, per env, the td keys the embedding classes read and whether they differ inside the pool."""
+    import inspect
+    import re
+
+    import aug_zoo as zoo
+    from rl4co.models.nn.env_embeddings import env_context_embedding, env_dynamic_embedding, env_init_embedding
+
+    for ename in zoo.ENV_PARAMS:
+        try:
+            env = zoo.make_env(ename)
+            torch.manual_seed(ctx.rng.randrange(1 << 30))
+            pool, groups, differing = zoo.make_pool(ename, env, ctx.rng, 6)
+            states = [pool]
+            td = pool.clone()
+            for _ in range(2):
+                if bool(td["done"].all()):
+                    break
+                td.set("action", td["action_mask"].float().argmax(-1))
+                td = env.step(td)["next"]
+                states.append(td.clone())
+        except Exception as e:
+            ctx.count(f"embedding check: env unavailable {ename}")
+            continue
+        B = pool.batch_size[0]
+        N = pool["action_mask"].shape[-1] if "locs" not in pool.keys() else pool["locs"].shape[-2]
+        E = torch.randn(B, N, 16, generator=torch.Generator().manual_seed(7))
+        for kind, factory in (("init", env_init_embedding), ("context", env_context_embedding), ("dynamic", env_dynamic_embedding)):
+            try:
+                torch.manual_seed(11)
+                emb = factory(ename, {"embed_dim": 16}).eval()
+            except Exception:
+                continue
+            cls = type(emb).__name__
+            try:
+                src = inspect.getsource(type(emb))
+                for k in sorted(set(re.findall(r'td\["(\w+)"\]', src))):
+                    if k in pool.keys() and pool[k].reshape(B, -1).shape[1] <= 3:
+                        flat = pool[k].reshape(B, -1).float()
+                        ctx.count(f"embedding {cls} reads per-instance scalar {ename}.{k}: "
+                                  + ("differs inside the batch" if not bool((flat == flat[0]).all()) else "CONSTANT in the batch"))
+            except Exception:
+                pass
+            for si, st in enumerate(states if kind != "init" else states[:1]):
+                def run(tdx, rows):
+                    with torch.inference_mode():
+                        if kind == "context":
+                            return _tensors(emb(E[rows], tdx))
+                        return _tensors(emb(tdx))
+                try:
+                    full = run(st, list(range(B)))
+                    ok = True
+                    for i in range(B):
+                        one = run(st[i:i + 1], [i])
+                        for tf, to in zip(full, one):
+                            if tf.shape[0] != B:
+                                continue
+                            if to.numel() != tf[i].numel():
+                                continue
+                            if to.dim() != tf.dim():  # a bare `.squeeze()` also dropped the batch dimension at B = 1 (values are compared)
+                                ctx.count(f"embedding {cls}: output drops the batch dimension at B=1 (squeeze)")
+                            d = float((tf[i].double().reshape(-1) - to.double().reshape(-1)).abs().max())
+                            sc = max(1.0, float(to.abs().max()))
+                            if d > 1e-5 * sc:
+                                ok = False
+                                ctx.violation(f"embedding:{cls}:output_row_depends_on_batch",
+                                              f"{cls} ({kind} embedding of {ename}), state after {si} steps: row {i} of emb(td) differs from emb(td[{i}:{i + 1}]) by {d:.3g} "
+                                              f"on a batch whose rows have different {differing}",
+                                              {"env": ename, "embedding": cls, "row": i, "steps": si, "max_abs_dev": d,
+                                               "per_instance_parameters_differing": differing})
+                                break
+                        if not ok:
+                            break
+                    ctx.case(("emb", ename, cls, si))
+                    ctx.count("embedding classes checked for row-locality (class × state)")
+                except Exception as e:
+                    ctx.count(f"embedding check unavailable: {cls} on {ename} ({type(e).__name__})")
 
 
 def _check_cache_replication(ctx):
@@ -1618,6 +1721,7 @@ def _run_zoo(ctx, names):
 
     if "am" in names:
         _check_cache_replication(ctx)
+        _check_embeddings_rowlocal(ctx)
 
     for _rep in range(ctx.budget(1, 5)):  # fresh random weights and instance pools each round
         for pname, build, envs, ms in zoo.ZOO:
@@ -1653,7 +1757,11 @@ C14_NOTE = ("the Lean theorems cover (a) the decoding LOOP and the REGROUPING (b
             "gap below ~1e-2 depending on the evaluation chunk size — inside the property's clause 'up to float rounding that does "
             "not flip a selection', documented here, not a violation.  The env-side idle-step law (hypothesis of batch_reward_eq_solo) is "
             "checked on every policy×env, RNG-consuming policies included, by replaying each batch row's actions on its instance alone.  "
-            "PADDING WIDTH: for the scheduling policies (L2D on FJSP / JSSP) the same instance is decoded at its own minimal operation width, "
+            "PER-INSTANCE PARAMETERS: pools mix rows from several generator settings (row 0 from the smallest, row 1 from the largest variant, both "
+            "are instances under test), and every init / context / dynamic embedding class is additionally checked at module level "
+            "(emb(td)[i] == emb(td[i:i+1])[0] on mixed batches, at reset and after two steps); the evidence lists per embedding class which "
+            "per-instance scalar td keys it reads and whether they differ inside the batch.  FLP / MCP `to_choose` is not covered: no bundled "
+            "constructive policy has embeddings for those envs.  PADDING WIDTH: for the scheduling policies (L2D on FJSP / JSSP) the same instance is decoded at its own minimal operation width, "
             "re-padded to own+1, own+5, 2·own and the generator's n_ops_max (zero columns + pad_mask, as the generator pads), alone and in "
             "mixed batches next to longer batch-mates.  NON-AUTOREGRESSIVE policies: the bundled GNN encoders need torch_geometric (not installed); NonAutoregressivePolicy and its bundled "
             "NonAutoregressiveDecoder are swept with a deterministic hand-written pairwise-MLP heatmap encoder on TSP, greedy and "
